@@ -180,6 +180,56 @@ fn deep_chains(tier: &str) -> Vec<Vec<u8>> {
     outv
 }
 
+/// C12: encode -> decode of f32 / f64 bit patterns (exponent boundaries, subnormals, zeros, infinities, NaN payloads,
+/// f32-representable doubles, seeded random), widening reads, narrowing writes.
+#[cfg(all(feature = "alloc", feature = "half"))]
+fn gen_c12(sink: &mut Sink, tier: &str, seed: u64) {
+    let mut rng = StdRng::seed_from_u64(seed ^ 0xc12);
+    let nrand = if tier == "thorough" { 200_000 } else { 12_000 };
+    let mut f32s: Vec<u32> = vec![];
+    for e in 0..=255u32 { for m in [0u32, 1, 2, 0x3fffff, 0x400000, 0x400001, 0x7ffffe, 0x7fffff, 0x1000, 0x0fff, 0x1001, 0x1fff, 0x2000] {
+        for s in [0u32, 1] { f32s.push((s << 31) | (e << 23) | m) } } }
+    for _ in 0..nrand { f32s.push(rng.gen()) }
+    // around the half-precision rounding thresholds
+    for h in (0..=0xffffu32).step_by(if tier == "thorough" { 1 } else { 97 }) {
+        let x = half::f16::from_bits(h as u16).to_f32().to_bits();
+        for d in [0i64, -1, 1, 0x0fff, 0x1000, 0x1001, -0x1000] { f32s.push((x as i64 + d) as u32) }
+    }
+    f32s.sort_unstable(); f32s.dedup();
+    for x in &f32s {
+        let bits = x.to_be_bytes();
+        sink.distinct_inputs += 1;
+        let i1 = json!({"bits": crate::abs::bytes(&bits)});
+        for name in ["f32", "f16"] {
+            let obs = run_op("encf", name, &i1);
+            // read back what was written, through every accessor
+            if let Some(b) = obs["v"]["b"].as_array() {
+                let input = json!({"buf": b, "pos": 0});
+                for acc in ["f16", "f32", "f64"] { sink.call("acc", acc, &input) }
+            }
+            sink.put(json!({"fam": "encf", "name": name, "in": i1, "obs": obs}));
+        }
+    }
+    let mut f64s: Vec<u64> = vec![];
+    for e in [0u64, 1, 2, 872, 873, 874, 896, 897, 1007, 1008, 1009, 1022, 1023, 1024, 1038, 1039, 1040, 1150, 1151, 1152, 2045, 2046, 2047] {
+        for m in [0u64, 1, 1 << 28, 1 << 29, (1 << 29) - 1, (1 << 29) + 1, 1 << 51, (1 << 52) - 1, 0x000f_ffff_e000_0000] {
+            for s in [0u64, 1] { f64s.push((s << 63) | (e << 52) | m) } } }
+    for x in f32s.iter().step_by(7) { f64s.push((f32::from_bits(*x) as f64).to_bits()) }
+    for _ in 0..nrand { f64s.push(rng.gen()) }
+    f64s.sort_unstable(); f64s.dedup();
+    for x in &f64s {
+        let bits = x.to_be_bytes();
+        sink.distinct_inputs += 1;
+        let i1 = json!({"bits": crate::abs::bytes(&bits)});
+        let obs = run_op("encf", "f64", &i1);
+        if let Some(b) = obs["v"]["b"].as_array() {
+            let input = json!({"buf": b, "pos": 0});
+            for acc in ["f16", "f32", "f64"] { sink.call("acc", acc, &input) }
+        }
+        sink.put(json!({"fam": "encf", "name": "f64", "in": i1, "obs": obs}));
+    }
+}
+
 /// C19: display of generated items (exact notation), of mutated / truncated ones and of heads with extreme
 /// declared lengths (totality and the size bound).
 #[cfg(all(feature = "alloc", feature = "half"))]
@@ -297,6 +347,8 @@ pub fn cmd_gen(args: &[String]) -> i32 {
     match fam.as_str() {
         "c05" => gen_c05(&mut sink, tier, seed),
         "c06" => gen_c06(&mut sink, tier, seed),
+        #[cfg(all(feature = "alloc", feature = "half"))]
+        "c12" => gen_c12(&mut sink, tier, seed),
         #[cfg(all(feature = "alloc", feature = "half"))]
         "c19" => gen_c19(&mut sink, tier, seed),
         #[cfg(all(feature = "std", feature = "half"))]
